@@ -949,9 +949,51 @@ def moved_and_sub_loaded_stream(ctx, res):
                             dict(case, ref_path=getattr(err, "ref_path", None)))
 
 
+def friendly_names_stream(ctx, res):
+    """a friendly `name=` is for messages about the field itself; the PATH is made of keys: lists of configurations, typed dicts and
+    leaves declared with a friendly name report rejections below them under their key and the item's index, by every route"""
+    import cincoconfig as cc
+    route_s = cc.Schema()
+    route_s.prefix = cc.StringField(name="URL prefix", default="/")
+    route_s.weight = cc.IntField(name="Weight", default=1)
+    srv = cc.Schema()
+    srv.port = cc.PortField(name="TCP port", default=80)
+    srv.routes = cc.ListField(route_s, name="Routing table", default=lambda: [])
+    srv.limits = cc.DictField(cc.StringField(), cc.IntField(), name="Limits", default=dict)
+    for typed in (False, True):
+        S_ = cc.make_type(srv, "FriendlySrv") if typed else srv
+        s = cc.Schema()
+        s.net.upstream.servers = cc.ListField(S_, name="Upstream servers", default=lambda: [])
+        good = [{"port": 1}, {"port": 2, "routes": [{"prefix": "/a"}, {"prefix": "/b"}]}]
+        probes = [("tree load", lambda c: c.load_tree({"net": {"upstream": {"servers": good + [{"port": [1]}]}}}), "net.upstream.servers[2].port"),
+                  ("json", lambda c: c.loads(json.dumps({"net": {"upstream": {"servers": good + [{"routes": [{"prefix": "/x"}, {"weight": "heavy"}]}]}}}).encode(), format="json"),
+                   "net.upstream.servers[2].routes[1].weight"),
+                  ("assignment of maps", lambda c: setattr(c.net.upstream, "servers", good + [{"limits": {"cpu": "lots"}}]), "net.upstream.servers[2].limits[cpu]"),
+                  ("attribute on an item", lambda c: (setattr(c.net.upstream, "servers", good), setattr(c.net.upstream.servers[1].routes[1], "weight", "x")), "net.upstream.servers[1].routes[1].weight"),
+                  ("dotted path on an item", lambda c: (setattr(c.net.upstream, "servers", good), c.net.upstream.servers[0].__setitem__("port", "x")), "net.upstream.servers[0].port"),
+                  ("appended object", lambda c: (setattr(c.net.upstream, "servers", good), c.net.upstream.servers.append(S_(port=3)), setattr(c.net.upstream.servers[2], "port", [1])),
+                   "net.upstream.servers[2].port")]
+        for label, do, want in probes:
+            cfg = s()
+            try:
+                do(cfg)
+                err = None
+            except Exception as e:  # noqa
+                err = e
+            case = {"stream": "friendly-names", "config_type": typed, "route": label, "expected": want}
+            res.case(stable(case), kind="friendly-names")
+            if err is None:
+                res.violate("C15:position:accepted", "an invalid value was accepted", case)
+            elif not isinstance(err, cc.ValidationError):
+                res.violate("C15:not-validation-error", "a rejection surfaced as %s" % type(err).__name__, case)
+            elif err.ref_path != want or not str(err).startswith(want):
+                res.violate("C15:path-uses-friendly-name", "the path of a rejection below a field declared with a friendly name is not made of keys and indexes",
+                            dict(case, ref_path=err.ref_path, text=str(err)[:120]))
+
+
 def run(ctx, n_quick=250, n_thorough=8000):
     res = Result()
-    P.run_stream(ctx, res, "C15", ctx.n(n_quick, n_thorough), oracle, gen_ops=gen_ops, ops_len=(8, 20))
+    guard(res, "C15", lambda: P.run_stream(ctx, res, "C15", ctx.n(n_quick, n_thorough), oracle, gen_ops=gen_ops, ops_len=(8, 20)))
     guard(res, "C15", doc_stream, ctx, res, ctx.n(40, 1500))
     guard(res, "C15", include_docs, ctx, res)
     guard(res, "C15", container_path_stream, ctx, res, ctx.n(150, 4000))
@@ -959,6 +1001,7 @@ def run(ctx, n_quick=250, n_thorough=8000):
     guard(res, "C15", links_stream, ctx, res, ctx.n(120, 4000))
     guard(res, "C15", position_and_nesting_stream, ctx, res)
     guard(res, "C15", moved_and_sub_loaded_stream, ctx, res)
+    guard(res, "C15", friendly_names_stream, ctx, res)
     return res
 
 
